@@ -1147,8 +1147,14 @@ def _event_rows(w: World) -> list[dict[str, Any]]:
 
 
 def _jump_marked(w: World) -> set[str]:
-    """ids of stages/tasks whose status was force-written while a JumpToStage was handled."""
-    return {r["id"] for r in w.audit() if (r["ctx"] or "") in REARM_CTX and r["tbl"] in ("stage", "task")}
+    """ids of stages/tasks whose LAST durable status was force-written while a JumpToStage /
+    RestartStage was handled ("force-marked by a jump": outside the log).  An entity that a jump
+    re-armed and that then went through the regular start / complete steps again is inside."""
+    last: dict[str, str] = {}
+    for r in w.audit():
+        if r["tbl"] in ("stage", "task"):
+            last[r["id"]] = r["ctx"] or ""
+    return {i for i, ctx in last.items() if ctx in REARM_CTX}
 
 
 def make_post_replay(q_sym: Any, p_sym: Any) -> Callable[[World, dict[str, Any], Any], tuple[str, Any] | None]:
